@@ -75,6 +75,7 @@ Section TrySpecs.
 
   Let Lb := base_laws base Vb Vk tnb accb rhb whb.
   Let Lk := backup_laws backup Vb Vk tnk acck rhk whk.
+  Let Lb2 := base_laws2 base Vb Vk tnb accb rhb whb.
   Let inv := Inv Vb Vk B0.
 
   Definition all_small (s : store) : Prop := forall p m c, s !! p = Some (File m c) -> small c.
@@ -98,13 +99,19 @@ Section TrySpecs.
                  infos_ext w w' (cands p) /\
                  (r = MOk tt -> tracked w' p /\ Forall (tracked w') (ancestors p)).
 
-  (** every simple operation keeps the invariant (if it leaves no tracked path
-      with another type, D13) *)
+  (** the same with the paths given by a predicate *)
+  Definition infos_ext_in (w w' : world) (P : str -> Prop) : Prop :=
+    (forall q, w_infos w !! q <> None -> w_infos w' !! q = w_infos w !! q) /\
+    (forall q, w_infos w' !! q <> None -> w_infos w !! q <> None \/ P q).
+
+  (** every covered operation keeps the invariant (if it leaves no tracked path
+      with another type, D13), whether it succeeds or fails; the base has to
+      satisfy the reading laws of Spec/Laws2.v as well *)
   Definition step_stmt : Prop :=
-    Lb -> Lk -> links_ok tnb tnk accb acck B0 -> all_small B0 -> swf B0 ->
+    Lb -> Lb2 -> Lk -> links_ok tnb tnk accb acck B0 -> all_small B0 -> swf B0 ->
     forall o w, inv w -> covered Vb o w ->
     exists r w', step base backup o w = (r, w') /\ r <> MHalt /\ (kind_stable Vb w' -> inv w') /\
-                 infos_ext w w' (cands (op_name o)).
+                 infos_ext_in w w' (op_touches o).
 
   (** Rollback from any state satisfying the invariant: returns nil, the base
       is back (directory timestamps and the root's own metadata aside), the
@@ -127,7 +134,7 @@ Section TrySpecs.
     forall w0, initial Vb Vk tnb tnk accb acck B0 w0 -> inv w0.
 
   Definition c01_stmt : Prop :=
-    Lb -> Lk -> all_small B0 ->
+    Lb -> Lb2 -> Lk -> all_small B0 ->
     forall w0 ops w, initial Vb Vk tnb tnk accb acck B0 w0 -> good_run w0 ops w ->
     exists w', b_rollback base backup w = (MOk tt, w') /\
                store_eqv (Vb w') B0 /\ (forall p, p <> s_root -> Vk w' !! p = None) /\
